@@ -63,9 +63,6 @@ impl Pat {
     #[verifier::external_body]
     pub fn as_ident(&self) -> (r: Option<&BindingIdent>) ensures r == (match self { Pat::Ident(i) => Some(i), _ => None }) { unimplemented!() }
 }
-// swc::Compiler (opaque) - only passed through to get_result
-#[verifier::external_body]
-pub struct Compiler { _p: u8 }
 impl std::hash::Hash for Span {
     #[verifier::external_body]
     fn hash<H: std::hash::Hasher>(&self, state: &mut H) { unimplemented!() }
